@@ -72,9 +72,11 @@ Aggregate(c, rules, B, map) ==
     c.type \o GS \o Timespan(c.ts, B.tsmode) \o GS \o GroupBy(c, map) \o GS
     \* the template receives the condition's field reference as given: absent prints as "None"
     \o (IF c.cond.kind # "basic" THEN <<>> ELSE IF c.cond.hasfield THEN Ren(map, c.cond.field) ELSE <<78,111,110,101>>) \o GS
-    \o NumOrEmpty(c.cond.kind = "basic" /\ c.cond.haspct, c.cond.pct) \o GS \o RefList(c, rules)
+    \o NumOrEmpty(c.cond.kind = "basic" /\ c.cond.haspct, c.cond.pct) \o (IF c.cond.kind = "basic" /\ c.cond.haspct /\ c.cond.frac THEN <<46, 53>> ELSE <<>>)
+    \o GS \o RefList(c, rules)
 BasicCondition(c, rules, map) ==
-    OpSymbol(c.cond.op) \o GS \o NatText(c.cond.count) \o GS
+    \* (a threshold may have a fractional part - an average, a percentile: frac = TRUE stands for count + 0.5)
+    OpSymbol(c.cond.op) \o GS \o NatText(c.cond.count) \o (IF c.cond.frac THEN <<46, 53>> ELSE <<>>) \o GS
     \o (IF c.cond.hasfield THEN Ren(map, c.cond.field) ELSE <<78,111,110,101>>) \o GS \o RefList(c, rules)   \* "None"
 
 \* expected body for a basic condition (extended conditions are compared by truth table)
